@@ -129,6 +129,7 @@ func (p *Prog) VerifyFunc(fi *FuncInfo, fc *FuncContract) (res *FuncResult) {
 				val = x.h.freshValue(s, fi.Sig.Params().At(pi).Type(), fmt.Sprintf("in_arg%d", pi))
 			}
 			paramVals[fmt.Sprintf("arg%d", pi)] = val
+			paramVals[fmt.Sprintf("param%d", pi)] = val // not shadowed by the call arguments in at-clauses
 			pi++
 		}
 	}
